@@ -470,7 +470,7 @@ class ParserText(ParserBase):
         try:
             value = self._parsable[self._parsed_length:]
             date_time = dateutil.parser.parse(six.ensure_text(value, self._encoding))
-        except ValueError as e:
+        except (ValueError, OverflowError) as e:
             six.raise_from(InvalidValue(value, type(self), 'value'), e)
 
         self._parsed_values[name] = date_time
